@@ -206,6 +206,8 @@ def _check_handler(run: Run, ctx, m, cls, h: FuncInfo) -> None:
             run.check(is_int, "C18.R1", h, stmt_of(n), "index is known to be an int (not bool/str/float)", f"{h.name} indexes with the selector value without an integer type test: a string/float constant selector crashes with TypeError")
             run.check(nonneg, "C18.R2", h, stmt_of(n), "index is known to be >= 0", f"{h.name} projects with a possibly negative constant without a sign test")
             run.check(bound, "C18.R2", h, stmt_of(n), "index is known to be < len(elts)", f"{h.name} indexes elts[n] without the bound test n >= len(elts)")
+            no_star = any((not pol) and "Starred" in ast.unparse(a) and strip_sites(fa.term_of(a)) is not None and _mentions(fa, a, ("attr", vp, "elts")) for a, pol in fx.atoms)
+            run.check(no_star, "C18.R2", h, stmt_of(n), "literal has no starred element (positions are then static)", f"{h.name} projects element n of a literal that may contain starred elements: (a, *b)[1] becomes a bare '*b' (not an expression) and (*b, a)[1] becomes 'a' although b's length decides which element that is", "leave the subscript intact when any(isinstance(e, ast.Starred) for e in v.elts)", key="projection out of a literal with possibly starred elements")
     # raise only under the bound condition
     for n in own_nodes(h):
         if isinstance(n, ast.Raise):
@@ -252,4 +254,15 @@ def _bound_fact(fa, a, pol, sval, elts) -> bool:
         return (op is ast.GtE and not pol) or (op is ast.Lt and pol)
     if is_len(l) and is_n(r):
         return (op is ast.LtE and not pol) or (op is ast.Gt and pol)
+    return False
+
+
+def _mentions(fa, a: ast.AST, term) -> bool:
+    for x in ast.walk(a):
+        if isinstance(x, (ast.Attribute, ast.Name)) and fa.cfg.has_node(x):
+            try:
+                if strip_sites(fa.term_of(x)) == term:
+                    return True
+            except AnalysisError:
+                pass
     return False
